@@ -60,6 +60,12 @@ CHECKS['C04'] = ('every peptide of length 1..4 (quick) / 1..5 (thorough) over {S
                  'thorough: all 65535 ion-type subsets on 2 peptides; own ion enumeration (each key once), per-ion '
                  'agreement with mass()/mz() on the ion sequence, sequence/number/internal bookkeeping, 5 projected return '
                  'types, Fragmenter twice', 'DESIGN.md section 4 / C04')
+CHECKS['C12'] = ('every residue string of length 1..3 (quick) / 1..4 (thorough) over {K,S,M,G} x 38 static rule sets (1-3 targets '
+                 'among residues / N-Term / C-Term, 1-2 modifications, pairs of rules) x pre-existing modifications: mass '
+                 '(mono/avg, ions p,b,y,c,z), composition, fragments, modified-residue counts of the rule form vs the '
+                 'explicit form written by the harness, condensation = explicit form; isotope labels {13C,15N,18O,17O,34S,'
+                 'D,T,2H} and 9 pairs: label shift = atom count x NIST isotope difference, with/without '
+                 'use_isotope_on_mods', 'DESIGN.md section 4 / C12')
 NOT_APPLICABLE = {}
 
 
